@@ -226,13 +226,21 @@ pub fn format_comments(comments: &str) -> String {
 }
 
 pub fn is_fixed_size(bit_str: &BitString) -> bool {
-    bit_str.constraints.len() == 1
-        && bit_str
-            .constraints
-            .first()
-            .unwrap()
-            .unpack_as_strict_value()
-            .is_ok()
+    use crate::intermediate::constraints::{Constraint, ElementOrSetOperation, SubtypeElements};
+    // exactly one, inextensible `(SIZE (n))`
+    match bit_str.constraints.as_slice() {
+        [Constraint::Subtype(set)] if !set.extensible => match &set.set {
+            ElementOrSetOperation::Element(SubtypeElements::SizeConstraint(size)) => matches!(
+                **size,
+                ElementOrSetOperation::Element(SubtypeElements::SingleValue {
+                    extensible: false,
+                    ..
+                })
+            ),
+            _ => false,
+        },
+        _ => false,
+    }
 }
 
 #[cfg(test)]
